@@ -53,6 +53,13 @@ CLAIMS = {
          "every index/slice/nil/make/division/type-assertion/explicit-panic site is an obligation for all inputs and iteration counts; loops that "
          "consume input carry termination measures. Not decided: the goyacc SQL parser, protobuf/gRPC/compress libraries, memory bounds without a cap in the code.",
          "DESIGN.md 3 (C16)"),
+ "C18": ("Typestate over the RPC handlers of pkg/server: every invocation of a database.DB method in a handler (and in the helpers inlined into "
+         "it) is checked against the class of that method taken from the property statement (mutating: RW/Admin/SysAdmin; reading: additionally R; "
+         "administrative: Admin/SysAdmin; mutating methods never on the system database), where the levels the caller may hold come from the "
+         "permission table row of the method name the handler passes to the gate (tables extracted from pkg/auth/permissions.go on every run); "
+         "the gate itself is verified to hand out the system database only for methods of the maintenance table. Known finding: eleven mutating RPCs are "
+         "in that table. Not decided: authentication/sessions/expiry/re-permissioning, interceptors, the server-scoped gate (user and database management).",
+         "DESIGN.md 3 (C18), 9.4"),
  "C17": ("singleapp.AppendableFile: every public method preserves the representation invariant, never panics, and meets the size arithmetic of a "
          "byte log (Append returns the previous size and grows it by the bytes written; SetOffset(o) truncates to o or fails without effect; "
          "flush/sync/ReadAt/DiscardUpto leave the size unchanged in every outcome; ReadAt returns at most size-off bytes); multiapp routes offsets "
